@@ -200,6 +200,23 @@ NEEDS = {
              "another row count in the same process, and indexed again",
     "C18-e": "unpacked_centroid recomputed as 2*sum >= n on the minimal-width buffer: needs a cluster of 128..255 "
              "members with a bit set in >= 128 of them, seen through transform / predict / subcluster_centers_",
+    "C03-e": "merge_subcluster accepts a pair of equal singletons without asking the criterion: needs never-merge "
+             "and two bit-identical rows (clusters of size 2)",
+    "C04-e": "_popcount copies rows whose width is not a multiple of 8 bytes into a module-level scratch buffer "
+             "keyed by width in words: needs an earlier clustering in the same process with MORE bytes per row in "
+             "the same 8-byte bucket (stale padding inflates the counts of the later run)",
+    "C07-e": "RadiusMerge accepts as soon as the diameter statistic passes (the mechanism of C10-b, found "
+             "independently for C07): needs the radius criterion, a cluster with several minority bits and a "
+             "threshold between its radius complement and its iSIM",
+    "C09-e": "midsection batches become ceil(n / bin) slices of n // batches pairs: the last n % batches file "
+             "pairs are never read: needs a number of buffer/index pairs that is not a multiple of the number of "
+             "batches (whole clusters vanish between rounds)",
+    "C10-e": "jt_isim_radius_compl_from_sum skips the centroid when ls.max() <= n // 2: needs an EVEN cluster size "
+             "whose most frequent bit is set in exactly half of the members (ties belong to the centroid)",
+    "C17-e": "reset() keeps a root that never split and _initialize_tree re-uses it when n_features matches: needs "
+             "a small first fit, a change of branching factor, reset, and a second fit that fills the root",
+    "C19-e": "jt_isim_unpacked reduces blocks of 256 rows in uint8: needs unpacked uint8 input and a cluster of "
+             ">= 256 members with a bit set in all 256 rows of an aligned block",
 }
 EXTRA = {"C17-a": ["C10"], "C12-a": ["C07"], "C02-a": ["C12"], "C14-b": ["C05"], "C03-b": ["C07"], "C07-b": ["C03"],
          "C05-c": ["C09"], "C02-c": ["C08"], "C09-d": ["C18"], "C03-d": ["C02", "C05"],
